@@ -75,6 +75,8 @@ type Broker struct {
 	Disconnect bool
 	Pings      int
 	ConnackRC  byte
+	// Refuse: filters whose SUBSCRIBE the broker answers with 0x80 (e.g. no permission).
+	Refuse map[string]bool
 }
 
 func newBroker(send func([]byte), now func() int64) *Broker {
@@ -100,7 +102,7 @@ func (b *Broker) feed(data []byte) {
 			codes := make([]byte, len(p.Filters))
 			for i, f := range p.Filters {
 				q := p.QoSs[i] & 3
-				if q == 3 {
+				if q == 3 || b.Refuse[f] {
 					codes[i] = 0x80
 					continue
 				}
